@@ -13,6 +13,7 @@ import decimal
 import itertools
 from fractions import Fraction
 import math
+import sys
 
 from ..core import runner, snapshot
 from ..model import exactnum as X
@@ -52,6 +53,7 @@ def literal_alphabet(kind):
     long_ += ['0.' + '0' * 27 + '1', '0.' + '3' * 29 + '5', '1.' + '0' * 28 + '1', '1' + '0' * 29 + '1', '1' + '0' * 29,
               '9' * 28 + '.5', '9' * 28 + '.4', '1.' + '2345678901' * 3 + '25', '0.1', '0.2', '0.3', '2.675', '1.005', '0.15', '0.35',
               '12345678901234567.891', '1' + '0' * 27 + '.5', '12345678901234567890123456789.75', '9' * 29 + '.5', '1' + '0' * 29 + '.25',
+              '1' * 4301, '9' * 5000 + '.5', '0.' + '1' * 4400, '7' + '0' * 4400,
               '10000000000000000000000000001', '0.8000000000000000000000000004', '1.809', '0.8683873806956042304114426942']
     return lits, long_
 
@@ -86,10 +88,15 @@ def model_bin(op, a, b):
 
 
 def run(text):
+    # the harness computes with integers of any length; the code under test runs under the interpreter's default limit on
+    # int <-> str conversion (4300 digits), as it would in a host
+    sys.set_int_max_str_digits(4300)
     try:
         return ('val', parser().eval(text, {}, max_ops_evaluated=1000))
     except Exception as e:  # noqa
         return ('exc', e)
+    finally:
+        sys.set_int_max_str_digits(0)
 
 
 def to_fraction(v):
@@ -152,6 +159,7 @@ def poison():
 def work(task):
     res = runner.Result()
     kind = task[0]
+    sys.set_int_max_str_digits(0)
     poison()
     if kind == 'pairs':
         _, As, Bs = task
@@ -286,6 +294,7 @@ def work(task):
 
 def main(tier, seed, t0):
     b = BOUNDS[tier]
+    sys.set_int_max_str_digits(0)       # harness side only; see run()
     snapshot.api()
     lits, long_ = literal_alphabet(b['LITS'])
     allv = lits + long_
